@@ -47,6 +47,7 @@ func vDirExists(path string) bool {
 }
 
 func stubWatcherAdd(w *fsnotify.Watcher, name string) error {
+	_ = w.Events // like the real method, a nil receiver is a nil-pointer dereference
 	st := vWatchers[w]
 	if st == nil || st.closed {
 		return vNewErr("inotify instance already closed")
@@ -59,6 +60,7 @@ func stubWatcherAdd(w *fsnotify.Watcher, name string) error {
 }
 
 func stubWatcherClose(w *fsnotify.Watcher) error {
+	_ = w.Events // like the real method, a nil receiver is a nil-pointer dereference
 	st := vWatchers[w]
 	if st == nil || st.closed {
 		return nil
